@@ -182,9 +182,19 @@ VALID_WEIGHTS = [None, "linear", "LINEAR", "quadratic", "Quadratic", "cubic", "C
 INVALID_WEIGHTS = ["", "lin", "linear ", "quartic", "square", "equal", "none", 3, 2.5, True]
 
 
+def _carrier(h, fam):
+    """the carrier distribution with a symbolic subset of its parameters fixed (none ... all of them)"""
+    kw = {}
+    for p in fam.params:
+        if bool(h.boolean(f"fix_{p}")):
+            lo, hi = fam.ranges[p]
+            kw[f"f_{p}"] = 0.5 * (lo + hi)
+    return fam.make(**kw)
+
+
 def h_method_strings(h):
     fam = FAMILIES[h.cfg["family"]]
-    d = fam.make()
+    d = _carrier(h, fam)
     m = h.cfg["method"]
     seen = []
     d._fit_mle = lambda data: seen.append("mle")
@@ -192,22 +202,29 @@ def h_method_strings(h):
     data = np.array([1.0, 2.0, 3.0])
     if m in VALID_METHODS:
         d.fit(data, m)
-        h.check(seen == [("mle" if m.lower() == "mle" else "lsq")], "valid-method-dispatched")
+        want = [("mle" if m.lower() == "mle" else "lsq")]
+        all_fixed = all(getattr(d, f"f_{p}", None) is not None for p in fam.params)
+        # with nothing left to estimate an implementation may legitimately skip the estimator
+        h.check(seen == want or (all_fixed and seen == []), "valid-method-dispatched")
     else:
         h.raises(lambda: d.fit(data, m), (ValueError,), "unknown-fit-method-rejected")
         h.check(seen == [], "nothing-fitted-before-rejection")
 
 
 def h_weight_keywords(h):
-    d = FAMILIES["ExpWeibull"].make(f_delta=2.0)
+    d = _carrier(h, FAMILIES["ExpWeibull"])
     w = h.cfg["weights"]
     data = np.array([1.0, 2.5, 0.7, 3.1, 1.9])
     if w in VALID_WEIGHTS:
-        d.fit(data, "wlsq", w)
+        try:
+            d.fit(data, "wlsq", w)
+        except NotImplementedError:
+            h.note("least squares with this set of fixed parameters is not implemented (an exception, not judged)")
+            return
         h.check(bool(np.isfinite(float(d.alpha))), "valid-weights-accepted")
     else:
         a0, b0 = d.alpha, d.beta
-        h.raises(lambda: d.fit(data, "wlsq", w), (ValueError, TypeError), "unknown-weight-keyword-rejected")
+        h.raises(lambda: d.fit(data, "wlsq", w), (ValueError, TypeError, NotImplementedError), "unknown-weight-keyword-rejected")
         h.check(d.alpha == a0 and d.beta == b0, "nothing-fitted-before-rejection")
 
 
